@@ -5329,3 +5329,89 @@ def tab15(ctx):
     if n < 2:
         raise AnchorMissing("TAB-15: get_special_char / get_bracket of the two lexers not found")
     return r
+
+
+# ---------------------------------------------------------------- CLI-19: the -o file is the joined result, the json schema has no optional keys
+
+def cli19(ctx):
+    """(a) `asca run -o f` writes `res.join(LINE_ENDING)`: one line per result, empty results included -- the text handed
+    to write_to_file in run::output_result IS that join (no trim, no filter: a word list ending in blank lines ends in
+    blank results). (b) The json schema shared with the web UI has exactly the keys of `RuleGroup` / `AscaJson`: no
+    field is skipped when writing unless it is also defaulted when reading (`skip_serializing_if` without `default` makes
+    `conv asca` write a file that `conv json` / `run -j` reject)."""
+    r = RuleResult("CLI-19", "run::output_result writes res.join(LINE_ENDING) unedited; no serde field of RuleGroup / AscaJson is skipped on writing without being defaulted on reading", floor=2)
+    bn = ctx.bin
+    b = ctx.fn(bn, "asca_bin::cli::run::output_result")
+    binds = Bindings(b.hir["body"], b.hir.get("params"))
+    n = 0
+    for x in hirq.walk(b.hir["body"]):
+        if x["e"] == "call" and (hirq.strip(x["f"]).get("path") or "").endswith("util::write_to_file") and len(x["args"]) >= 2:
+            n += 1
+            c = hirq.strip(x["args"][1])
+            while isinstance(c, dict) and c.get("e") == "path" and "hid" in c and binds.src.get(c["hid"], (None,))[0] == "expr":
+                c = hirq.strip(binds.src[c["hid"]][1])
+            ok = c.get("e") == "mcall" and c["name"] == "join" and _value_sources(c["recv"], binds) == {("param", "res")}
+            r.inst("output_result: the text written is `res.join(..)` itself", fn_loc(b, x.get("ln")), "ok" if ok else "report")
+            if not ok:
+                r.report("CLI-19|output_result|text", fn_loc(b, x.get("ln")), b.path,
+                         "the text written to the -o file is not `res.join(LINE_ENDING)` itself (outermost operation: `%s`): results are dropped or edited on the way to the file -- a trailing `trim_end()` removes the empty results of a word list that ends in blank lines, so the file has fewer lines than the word file" % (c.get("name") or c.get("e")))
+    if n < 1:
+        raise AnchorMissing("CLI-19: output_result does not call util::write_to_file")
+    # (b) serde attributes, read off the two type definitions
+    for rel, ty in (("src/lib.rs", "RuleGroup"), ("src/cli/mod.rs", "AscaJson")):
+        src = ctx.read(rel)
+        m = re.search(r"(?:pub(?:\([a-z]+\))?\s+)?struct\s+%s\s*\{(.*?)\n\}" % ty, src, re.S)
+        if not m:
+            raise AnchorMissing("CLI-19: struct %s not found in %s" % (ty, rel))
+        n += 1
+        body = m.group(1)
+        bad = []
+        # attributes belong to the field that follows them
+        pending = ""
+        for line in body.split("\n"):
+            t = line.strip()
+            if t.startswith("#["):
+                pending += t
+                continue
+            fm = re.match(r"(?:pub(?:\([a-z]+\))?\s+)?(\w+)\s*:", t)
+            if fm:
+                if "skip_serializing" in pending and "default" not in pending:
+                    bad.append(fm.group(1))
+                pending = ""
+        r.inst("%s: every field skipped on writing is defaulted on reading" % ty, rel, "ok" if not bad else "report")
+        if bad:
+            r.report("CLI-19|%s|%s" % (ty, ",".join(bad)), rel, ty,
+                     "field(s) %s of %s are left out of the json when empty (`skip_serializing_if`) but are still required when reading (no `default`): `conv asca` writes a file for an unnamed rule group that `conv json` and `run -j` reject with `missing field`, so rsca -> json -> rsca fails" % (", ".join("`%s`" % f for f in bad), ty))
+    return r
+
+
+# ---------------------------------------------------------------- SHR-7: an optional is handed to its matcher, whatever is left of the word
+
+def shr7(ctx):
+    """`(X,M:N)` equals the set of its M..N explicit repetitions -- also at the word edge, and also when X holds elements
+    that consume nothing (`$`). SubRule::context_match hands an Optional straight to context_match_option: the arm has no
+    pre-check of its own (a "not enough segments left" fast exit counts `$` as a segment and rejects `(C$,2:3)` where
+    `_C$C$` matches)."""
+    r = RuleResult("SHR-7", "SubRule::context_match: the Optional arm is a plain delegation to context_match_option (no early exit of its own)", floor=1)
+    lib = ctx.lib
+    b = ctx.fn(lib, "asca::subrule::SubRule::context_match")
+    n = 0
+    for m in hirq.matches(b):
+        if not (m.get("sty") or "").lstrip("&").endswith("asca::parser::ParseElement"):
+            continue
+        for arm in m["arms"]:
+            if not any((p.get("path") or "").endswith("ParseElement::Optional") for p in hirq.flat_pats(arm["pat"])):
+                continue
+            calls = [y for y in hirq.walk(arm["body"]) if y["e"] == "mcall" and (y.get("def") or "").endswith("SubRule::context_match_option")]
+            if not calls:
+                continue
+            n += 1
+            extra = [y for y in hirq.walk(arm["body"]) if y["e"] in ("if", "ret") and not y.get("exp") and not any(y is z for c in calls for z in hirq.walk(c))]
+            ok = not extra
+            r.inst("context_match: the Optional arm only calls context_match_option", fn_loc(b, arm.get("ln")), "ok" if ok else "report")
+            if not ok:
+                r.report("SHR-7|context_match|Optional", fn_loc(b, extra[0].get("ln")), b.path,
+                         "the Optional arm of context_match decides something before handing the optional to context_match_option (an early exit): an estimate of `how many segments the optional needs` counts elements that consume nothing (`$`), so `a > e / _(C$,2:3)` is rejected near the word edge where its expansion `_C$C$` matches")
+    if n < 1:
+        raise AnchorMissing("SHR-7: the Optional arm of context_match calling context_match_option was not found")
+    return r
